@@ -32,7 +32,28 @@ func setOf(s string) *byteSet {
 func randBytesExcl(r *rand.Rand, n int, excl *byteSet) []byte {
 	const hot = "\"'@+>#;:,()_ *\\%\x00\x7f\x80\xc8\xff\v\f=-./|`~!$&[]{}<?^"
 	out := make([]byte, 0, n)
-	mode := r.IntN(5)
+	mode := r.IntN(6)
+	if mode == 5 {
+		// Runs of bytes of ONE class — UTF-8 continuation bytes (0x80..0xBF: text that is NOT valid UTF-8,
+		// which code that walks back to a rune start or decodes runes trips over), lead bytes of 2-, 3- and
+		// 4-byte sequences, bytes that can never occur in UTF-8, control characters, digits, blanks — each
+		// run 1 … 130 bytes long.
+		classes := [][2]byte{{0x80, 0xBF}, {0x80, 0xBF}, {0xC2, 0xDF}, {0xE0, 0xEF}, {0xF0, 0xF4}, {0xF5, 0xFF}, {0xC0, 0xC1}, {0x00, 0x1F}, {'0', '9'}, {' ', ' '}, {'a', 'z'}, {0x7F, 0x9F}}
+		for len(out) < n {
+			cl := classes[r.IntN(len(classes))]
+			for l := pick(r, []int{1, 2, 3, 4, 59, 60, 61, 62, 63, 64, 65, 130, 1 + r.IntN(40)}); l > 0 && len(out) < n; l-- {
+				b := cl[0] + byte(r.IntN(int(cl[1]-cl[0])+1))
+				if excl != nil && excl[b] {
+					b = cl[1]
+					if excl[b] {
+						b = 'x'
+					}
+				}
+				out = append(out, b)
+			}
+		}
+		return out
+	}
 	if mode == 4 && n >= 2 {
 		// Valid UTF-8 text with multi-byte runes, in particular the encodings of
 		// small code points (code that converts bytes through runes or ranges
